@@ -17,6 +17,9 @@ COMMON = ["-std=c++20", "-w", "-pthread"]
 VARIANTS = {
     "plain": {"sut": ["-O1", "-fsanitize-coverage=trace-pc"], "rt": ["-O2"], "link": [], "defs": []},
     "sched": {"sut": ["-O1", "-fsanitize=thread", "-fsanitize-coverage=trace-pc"], "rt": ["-O2"], "link": [], "defs": []},
+    # reach measurement only (tools/coverage.py): gcov counters on the library code, never used by a registered check
+    "cov": {"sut": ["-O0", "--coverage", "-fsanitize-coverage=trace-pc"], "rt": ["-O2"], "link": ["--coverage"], "defs": []},
+    "schedcov": {"sut": ["-O0", "--coverage", "-fprofile-update=single", "-fsanitize=thread", "-fsanitize-coverage=trace-pc"], "rt": ["-O2"], "link": ["--coverage"], "defs": ["-DSIM_GCOV"]},
     "asan": {"sut": ["-O1", "-g1", "-fsanitize-coverage=trace-pc", "-fsanitize=address,undefined", "-fno-sanitize-recover=undefined", "-fno-omit-frame-pointer"],
              "rt": ["-O1", "-g1", "-fsanitize=address"], "link": ["-fsanitize=address,undefined"], "defs": ["-DSIMRT_ASAN"]},
 }
@@ -25,7 +28,7 @@ ENGINES = {
                      "simA/enum19.cpp", "simA/main.cpp"],
              "rt": ["simrt/heap.cpp", "simrt/clock_fatal.cpp"],
              "link": ["-Wl,--wrap=abort", "-Wl,--wrap=fprintf"], "bin": "simA"},
-    "simB": {"sut": ["simB/ops.cpp", "simB/main.cpp"], "rt": [], "so": ["simB/rt.cpp", "simrt/heap.cpp", "simrt/clock_fatal.cpp"], "bin": "simB",
+    "simB": {"sut": ["simB/ops.cpp", "simB/ops2.cpp", "simB/main.cpp"], "rt": [], "so": ["simB/rt.cpp", "simrt/heap.cpp", "simrt/clock_fatal.cpp"], "bin": "simB",
              "link": ["-rdynamic", "-ldl"] + ["-Wl,--wrap=" + s for s in
                       ["abort", "fprintf", "memcpy", "memmove", "memset", "memcmp", "memchr", "strlen", "wmemcpy", "wmemmove", "wmemset", "wmemcmp", "wmemchr", "wcslen",
                        "snprintf", "strtol", "strtoul", "strtoll", "strtoull", "strtof", "strtod", "__cxa_guard_acquire", "__cxa_guard_release", "__cxa_guard_abort",
